@@ -774,6 +774,7 @@ func main() {
 	type longJob struct {
 		seed    int64
 		script  *jblCase
+		qscript *pqlCase
 		pq      bool
 		jc      jblCase
 		pc      pqlCase
@@ -784,6 +785,10 @@ func main() {
 	for _, c := range scriptedJBL() {
 		c := c
 		longJobs = append(longJobs, &longJob{script: &c})
+	}
+	for _, c := range scriptedPQL() {
+		c := c
+		longJobs = append(longJobs, &longJob{qscript: &c, pq: true})
 	}
 	for i, n := 0, o.Scale(3, 40); i < n; i++ {
 		longJobs = append(longJobs, &longJob{seed: rnd.Int63()})
@@ -802,6 +807,8 @@ func main() {
 			switch {
 			case j.script != nil:
 				j.jc, j.b = replayJBL(*j.script), map[string]bool{"scripted": true}
+			case j.qscript != nil:
+				j.pc, j.b = replayPQL(*j.qscript), map[string]bool{"scripted": true}
 			case j.pq:
 				j.pc, j.b = genPQL(rand.New(rand.NewSource(j.seed)), thorough) //nolint:gosec
 			default:
